@@ -1,0 +1,23 @@
+//go:build verif
+// +build verif
+
+// Contracts for the verification machinery in /verif (comment-only; compiled only with -tags verif).
+package formatter
+
+// C17 (partial). The per-kind obligations (canon / frame / lexeme, see /verif/DESIGN.md section 14)
+// are generated from the traces of the 155 formatter methods; the helpers through which the methods
+// make tokens and queue whitespace are pinned by exact-trace contracts:
+//@ trace helper newToken := [] $0.getFreeFloating() => &local:t0
+//@ trace helper newSemicolonTkn := [] $0.newToken(59, ";"); store &$0.lastSemiColon := result($0.newToken(59, ";")) => $0.lastSemiColon
+//@ trace helper formatList := [] loop(&make:t2,$1){[(idx != (len($1) - 1))] $1[idx].Accept($0); $0.newToken(convert<token.ID>($2), [$2]); store &make:t2[idx] := result($0.newToken(convert<token.ID>($2), [$2])); $0.addFreeFloating(57416, " ") | [!((idx != (len($1) - 1)))] $1[idx].Accept($0)} => make:t2
+//@ trace helper formatStmts := [] loop(*$1){[is(*$1[idx],*ast.StmtInlineHtml) && ($0.lastSemiColon != nil)] store &$0.lastSemiColon := nil; append($0.lastSemiColon.Value, [63, 62]); store &$0.lastSemiColon.Value := append($0.lastSemiColon.Value, [63, 62]); *$1[idx].Accept($0) | [is(*$1[idx],*ast.StmtInlineHtml) && !(($0.lastSemiColon != nil))] store &$0.lastSemiColon := nil; insert(*$1, (idx + loopvar(insertCounter)), [&local:t35]); store $1 := result(insert(*$1, (idx + loopvar(insertCounter)), [&local:t35])); *$1[idx].Accept($0); store next(insertCounter) := (loopvar(insertCounter) + 1) | [!(is(*$1[idx],*ast.StmtInlineHtml))] store &$0.lastSemiColon := nil; $0.addFreeFloating(57416, "\n"); $0.addIndent(); *$1[idx].Accept($0)}
+//@ trace helper getFreeFloating := [($0.state == 0)] defer resetFreeFloating($0); append([&local:t5], $0.freeFloating); store &$0.freeFloating := append([&local:t5], $0.freeFloating); store &$0.state := 1 => $0.freeFloating || [!(($0.state == 0))] defer resetFreeFloating($0) => $0.freeFloating
+//@ trace helper addFreeFloating := [] append($0.freeFloating, [&local:t2]); store &$0.freeFloating := append($0.freeFloating, [&local:t2])
+//@ trace helper addIndent := [($0.indent < 1)]  || [!(($0.indent < 1))] append($0.freeFloating, [&local:t5]); store &$0.freeFloating := append($0.freeFloating, [&local:t5])
+//@ trace helper resetFreeFloating := [] store &$0.freeFloating := nil
+
+// Token slots the formatter leaves alone because a parsed tree never has a token there on that path
+// (facts of the grammars' actions, assumed here and listed as assumptions in the evidence):
+//@ trace parsed-nil ExprVariable.DollarTkn : `$name` is one T_VARIABLE token stored in the Identifier child; DollarTkn is set only for `$$a` / `${expr}`, whose Name is not an Identifier
+//@ trace parsed-nil ExprYield.DoubleArrowTkn : present exactly when the Key child is present
+//@ trace parsed-nil ScalarString.MinusTkn : only inside an interpolated string offset (`"$a[-1]"`), where the scanner attaches no trivia
